@@ -171,3 +171,20 @@ Qed.
 (* floor, not truncation: half a metre below ground at the zoom of one-metre cells is cell -1 (truncation would give 0) *)
 Example f_f_below_ground : f_f (-0.5)%float 25 = Some (-1).
 Proof. vm_compute. reflexivity. Qed.
+
+(* the closed top edge of the documented domain: alt = 2^25 exactly is the first layer ABOVE the grid, f = 2^v
+   (not a valid index: valid means -2^v <= f < 2^v); every altitude below 2^25 gets a valid index (F_exact_range) *)
+Theorem f_f_top_edge v : 0 <= v <= 35 -> f_f 33554432%float v = Some (2 ^ v) /\ F_exact v (bpow radix2 25) = 2 ^ v.
+Proof.
+  intros Hv.
+  assert (V : fval 33554432%float = bpow radix2 25 /\ ffin 33554432%float = true) by exact (pow2f_value 25 ltac:(lia)).
+  destruct V as [V F].
+  assert (E : F_exact v (bpow radix2 25) = 2 ^ v).
+  { unfold F_exact. replace (bpow radix2 25 * bpow radix2 v / bpow radix2 25)%R with (bpow radix2 v).
+    - rewrite <- IZR_pow2 by lia. apply Zfloor_IZR.
+    - field. apply Rgt_not_eq, bpow_gt_0. }
+  split; [|exact E]. rewrite <- E, <- V. apply f_f_exact; [exact Hv | exact F | |].
+  - rewrite V, Rabs_pos_eq by apply bpow_ge_0. apply bpow_le. lia.
+  - unfold alt_underflow. rewrite V, Rabs_pos_eq by apply bpow_ge_0. intros [_ C].
+    apply (Rlt_irrefl (bpow radix2 25)). apply Rlt_trans with (1 := C). apply bpow_lt. lia.
+Qed.
